@@ -1675,7 +1675,7 @@ def run(chk):
         # verb: direct 2-record sorts for every unordered pair in both orders (a batched sort over thousands of groups is
         # not stable, so ties could not be told from strict order there)
         # (a process per 2-record sort is the expensive part: the verb gets a sub-pool, the DSL the whole pool)
-        nv = 28 if q else 90
+        nv = 26 if q else 90
         keep = [v for v in ("0", "-0", "0.0", "1", "1.0", "0x1", "9007199254740992", "9007199254740992.0", "9007199254740994",
                             "9007199254740993", "9223372036854775807", "9223372036854775806", "0x7fffffffffffffff",
                             "", "abc", "ABC", "Abc", "é", "É", "_", "a", " ") if v in pool]
@@ -1710,7 +1710,7 @@ def run(chk):
             chk.stats["natural_pairs_checked"] = len(tpairs)
             for sig, what, detail in viol:
                 chk.add_violation(sig, what, detail)
-        ntv = 200 if q else 2000
+        ntv = 150 if q else 2000
         tl = []
         for _ in range(ntv):
             idx = tuple(rng.sample(range(n), 3))
